@@ -7,6 +7,13 @@ Tokens are abstract (`α` with decidable equality).  The tokeniser is a paramete
 for the character analyser it lists the characters of the line, for the word analyser it is
 `text_helper.get_line_words` (modelled by C17).  Lower-casing (`str.lower`) and the emptiness
 test are parameters as well, so every theorem holds for every tokeniser.
+
+Defaults and literals of the source (default `max_word_length` / `line_bin_width` / `max_bin` of get_doc_stats,
+the bin sizes that reach `_init_doc_stats` and `get_word_cat_stats`, the defaults of `get_word_cat_stats`,
+DEFAULT_ELEMENTS, `prev_point = 0` of the two line-width functions) are NOT written here: they come from
+Generated/C20.lean, rewritten from the working tree on every run.  What stays hand-written (the names of the
+columns, the bounds `1 … max_word_length` of the binning loops) is tied to the source by the obligations of
+Lemmas/C20Consts.lean.
 -/
 import PagexmlModel.Basic.Err
 import PagexmlModel.Generated.C20
@@ -384,15 +391,20 @@ def categoriseFrom (prev : Int) (w : Int) : List Int → WidthRange
   | [] => (prev, none)
   | bp :: r => if bp > w then (prev, some bp) else categoriseFrom bp w r
 
+/-- `prev_point = N` at the start of `categorise_line_width` / of `get_boundary_width_ranges`
+    (regenerated from the source; the theorems need them to be equal: `consts_width_starts_agree`) -/
+def catStart : Int := Generated.C20.catWidthStart
+def rangesStart : Int := Generated.C20.rangesWidthStart
+
 /-- `categorise_line_width` -/
-def categoriseLineWidth (w : Int) (bps : List Int) : WidthRange := categoriseFrom 0 w bps
+def categoriseLineWidth (w : Int) (bps : List Int) : WidthRange := categoriseFrom catStart w bps
 
 def rangesFrom (prev : Int) : List Int → List WidthRange
   | [] => [(prev, none)]
   | bp :: r => (prev, some bp) :: rangesFrom bp r
 
 /-- `get_boundary_width_ranges` -/
-def boundaryWidthRanges (bps : List Int) : List WidthRange := rangesFrom 0 bps
+def boundaryWidthRanges (bps : List Int) : List WidthRange := rangesFrom rangesStart bps
 
 /-- `counter[key] = 0` -/
 def csetZero {α : Type} [DecidableEq α] (c : Counter α) (t : α) : Counter α :=
@@ -438,22 +450,85 @@ structure Doc (T : Type) where
   elems : List (Option Nat)             -- `stats[field]` for the six DEFAULT_ELEMENTS, `none` = absent
   lines : List (DocLine T)              -- `get_lines()`
 
+/-- `range(start, stop, step)` as a list (`step = 0` is a ValueError) -/
+def pyRangeLen (start stop step : Int) : Nat :=
+  if step > 0 then ((stop - start + step - 1) / step).toNat
+  else if step < 0 then ((start - stop - step - 1) / (-step)).toNat
+  else 0
+
+def pyRange (start stop step : Int) : Res (List Int) :=
+  if step = 0 then .error .ValueError
+  else .ok ((List.range (pyRangeLen start stop step)).map (fun (i : Nat) => start + step * (i : Int)))
+
+/-- the defaults and literals of the source, regenerated on every run (Generated/C20.lean); the proofs
+    never look at their values except in Lemmas/C20Consts.lean -/
+def defaultMaxLen : Nat := Generated.C20.defaultMaxWordLength
+def lineBinWidth : Int := Generated.C20.defaultLineBinWidth
+def maxBin : Int := Generated.C20.defaultMaxBin
+/-- the bin size that reaches `_init_doc_stats` / `get_word_cat_stats` from `get_doc_stats` -/
+def initBinSize : Nat := Generated.C20.initBinSize
+def wordBinSize : Nat := Generated.C20.wordCatBinSize
+
+/-- `[point for point in range(line_bin_width, max_bin, line_bin_width)]` -/
+def boundaryPointsOf (lbw mb : Int) : Res (List Int) := pyRange lbw mb lbw
+
+/-- the default boundary points as a plain list (`[]` if the range raises) -/
+def defaultBps : List Int :=
+  match boundaryPointsOf lineBinWidth maxBin with
+  | .ok l => l
+  | .error _ => []
+
+/-- the configuration `get_doc_stats` works with: boundary points, stop words given or not,
+    `max_word_length`, and the bin sizes of `_init_doc_stats` (`initSize`) and `get_word_cat_stats`
+    (`wordSize`) — in the code these two are the defaults of two different functions.  The defaults
+    of the structure are those of the code. -/
 structure DocCfg where
-  bps : List Int := [300, 600, 900, 1200, 1500, 1800, 2100, 2400, 2700]
+  bps : List Int := defaultBps
   useStop : Bool := false
-  maxLen : Nat := 30
+  maxLen : Nat := defaultMaxLen
+  initSize : Nat := initBinSize
+  wordSize : Nat := wordBinSize
 
 abbrev DocTable := List (Col × List Val)
 
-def numElems : Nat := 6
+/-- `len(DEFAULT_ELEMENTS)` -/
+def numElems : Nat := Generated.C20.defaultElements.length
 
-/-- `_init_doc_stats` -/
+/-- the columns that do not depend on the configuration (`fields` of `_init_doc_stats`) -/
+def fixedCols : List Col :=
+  [Col.docId, .docNum, .docWidth, .docHeight] ++ (List.range numElems).map Col.elem ++
+  [.numWords, .numAlpha, .numNumber, .numTitle, .numNonTitle, .numStop, .numPunct, .numOversized]
+
+/-- the word-category columns, in the order of the dict `get_word_cat_stats` returns -/
+def wordCatCols : List Col :=
+  [.numWords, .numAlpha, .numNumber, .numTitle, .numNonTitle, .numStop, .numPunct, .numOversized]
+
+/-- a width range as the code prints it -/
+def rangeStr (r : WidthRange) : String :=
+  match r.2 with
+  | some b => s!"{r.1}-{b}"
+  | none => s!"{r.1}-"
+
+/-- the name of a column (the key of the dict `get_doc_stats` returns) -/
+def colName : Col → String
+  | .docId => "doc_id" | .docNum => "doc_num" | .docWidth => "doc_width" | .docHeight => "doc_height"
+  | .elem i => Generated.C20.defaultElements.getD i s!"elem_{i}"
+  | .numWords => "num_words" | .numAlpha => "num_alpha_words" | .numNumber => "num_number_words"
+  | .numTitle => "num_title_words" | .numNonTitle => "num_non_title_words" | .numStop => "num_stop_words"
+  | .numPunct => "num_punctuation_words" | .numOversized => "num_oversized_words"
+  | .wpl s => s!"words_per_line_{s}"
+  | .awpl s => s!"alpha_words_per_line_{s}"
+  | .wordLen b => s!"num_words_length_{b}"
+  | .lineWidth r => s!"line_width_range_{rangeStr r}"
+
+/-- `_init_doc_stats`: the bins are `range(size, max_word_length + 1, size)` (for `size = 0` the range raises:
+    see `getDocStats`) -/
 def initDocStats (cfg : DocCfg) : DocTable :=
   let fields := [Col.docId, .docNum, .docWidth, .docHeight] ++ (List.range numElems).map Col.elem ++
     [.numWords, .numAlpha, .numNumber, .numTitle, .numNonTitle, .numStop, .numPunct, .numOversized]
   let wplLabels := Generated.C20.wplCats.map (fun c => c.1)
   let cols := fields ++ wplLabels.map Col.wpl ++ wplLabels.map Col.awpl ++
-    ((List.range (cfg.maxLen / 5)).map (fun i => Col.wordLen (5 * (i + 1)))) ++
+    ((List.range (cfg.maxLen / cfg.initSize)).map (fun i => Col.wordLen (cfg.initSize * (i + 1)))) ++
     (boundaryWidthRanges cfg.bps).map Col.lineWidth
   -- a dict: a repeated key keeps its first position
   (dedupKeep cols).map (fun c => (c, []))
@@ -467,7 +542,7 @@ def docRow {T W : Type} (ops : TextOps T W) (cls : WordClass W) (cfg : DocCfg) (
     List (Col × Val) :=
   let lines := d.lines.filter (fun l => l.text.isSome)
   let words := lines.flatMap (fun l => match l.text with | some t => ops.docTok t | none => [])
-  let ws := wordCatStats cls cfg.useStop cfg.maxLen 5 words
+  let ws := wordCatStats cls cfg.useStop cfg.maxLen cfg.wordSize words
   let lineWords := lines.map (fun l => match l.text with
     | some t => if ops.isEmptyText t then [] else ops.wplTok t
     | none => [])
@@ -507,9 +582,35 @@ def docStatsFrom {T W : Type} (ops : TextOps T W) (cls : WordClass W) (cfg : Doc
     | .ok t' => docStatsFrom ops cls cfg (pi + 1) t' ds
     | .error e => .error e
 
-/-- `get_doc_stats(docs, line_width_boundary_points=bps, stop_words=…, max_word_length=…)` -/
+/-- `get_doc_stats` for a configuration (`range(0, …, 0)` in `_init_doc_stats` is a ValueError) -/
 def getDocStats {T W : Type} (ops : TextOps T W) (cls : WordClass W) (cfg : DocCfg) (ds : List (Doc T)) :
     Res DocTable :=
-  docStatsFrom ops cls cfg 0 (initDocStats cfg) ds
+  if cfg.initSize = 0 then .error .ValueError
+  else docStatsFrom ops cls cfg 0 (initDocStats cfg) ds
+
+/-- the configuration of a call `get_doc_stats(docs, line_width_boundary_points=bps, stop_words=…,
+    max_word_length=maxLen, line_bin_width=lbw, max_bin=mb)`; `none` = the argument is not passed and the
+    default of the code applies (`line_bin_width` / `max_bin` only matter without boundary points) -/
+def docCfgOf (bps : Option (List Int)) (useStop : Bool) (maxLen : Option Nat) (lbw mb : Option Int) : Res DocCfg :=
+  let pts : Res (List Int) := match bps with
+    | some b => .ok b
+    | none => boundaryPointsOf (lbw.getD lineBinWidth) (mb.getD maxBin)
+  match pts with
+  | .ok b => .ok { bps := b, useStop := useStop, maxLen := maxLen.getD defaultMaxLen }
+  | .error e => .error e
+
+/-- `get_doc_stats` as it is called -/
+def getDocStatsPy {T W : Type} (ops : TextOps T W) (cls : WordClass W) (bps : Option (List Int)) (useStop : Bool)
+    (maxLen : Option Nat) (lbw mb : Option Int) (ds : List (Doc T)) : Res DocTable :=
+  match docCfgOf bps useStop maxLen lbw mb with
+  | .ok cfg => getDocStats ops cls cfg ds
+  | .error e => .error e
+
+/-- `get_word_cat_stats(words, stop_words, max_word_length=…, word_length_bin_size=…)` as it is called
+    (`none` = the default of the function) -/
+def wordCatStatsPy {W : Type} (cls : WordClass W) (useStop : Bool) (maxLen size : Option Nat) (ws : List W) :
+    WordCatStats :=
+  wordCatStats cls useStop (maxLen.getD Generated.C20.wordCatDefaultMaxLen)
+    (size.getD Generated.C20.wordCatDefaultBinSize) ws
 
 end Pagexml.C20
